@@ -70,7 +70,7 @@ PAIRS: List[Tuple[str, str, str, List[Step]]] = [
     ("tcp_server", "TCPServer._read_data", "read loop", [
         ("bounded read", P("asyncio.wait_for", ["self.reader.read(MAX_RECV)", "self.config.read_timeout"], awaited=True), P("trio.fail_after", ["self.config.read_timeout or inf"]), ""),
         ("read", P("self.reader.read", ["MAX_RECV"]), P("self.stream.receive_some", ["MAX_RECV"], awaited=True, under_with="trio.fail_after(self.config.read_timeout or inf)"), ""),
-        ("data -> protocol", P("self.protocol.handle", ["RawData(data)"], awaited=True, not_in_handler=True), P("self.protocol.handle", ["RawData(data)"], awaited=True, not_in_handler=True, unguarded=True), ""),
+        ("data -> protocol", P("self.protocol.handle", ["RawData($)"], awaited=True, not_in_handler=True), P("self.protocol.handle", ["RawData($)"], awaited=True, not_in_handler=True, unguarded=True), ""),
         ("end -> Closed", P("self.protocol.handle", ["Closed()"], awaited=True, after_loop=True), P("self.protocol.handle", ["Closed()"], awaited=True, after_loop=True), ""),
     ]),
     ("tcp_server", "TCPServer._close", "transport close", [
@@ -233,7 +233,14 @@ def _args_ok(c: ast.Call, want: Optional[List[Optional[str]]]) -> Tuple[bool, st
     if len(got) != len(want):
         return False, f"arguments {got}"
     for g, w in zip(got, want):
-        if w is not None and g != w:
+        if w is None:
+            continue
+        if "$" in w:
+            import re as _re
+
+            if not _re.fullmatch(_re.escape(w).replace("\\$", r"[A-Za-z_][A-Za-z_0-9]*"), g):
+                return False, f"arguments {got}, expected {want}"
+        elif g != w:
             return False, f"arguments {got}, expected {want}"
     return True, ""
 
